@@ -27,6 +27,7 @@ import (
 	"io"
 	"iter"
 	"math/rand"
+	"net"
 	"net/http"
 	"os"
 	"sort"
@@ -244,8 +245,11 @@ type sxWorld struct {
 	pend    []*sxAsync
 	nslow   int
 	nasync  int
+	ngate   int // requests refused before the session layer (`bad`): numbered apart, they never stay pending
 	reqID   int
 	stateless bool
+	mode    string   // stateful | stateless | legacy (stateless under allowsessionsinstateless=1) | noids (stateful, GetSessionID returns "")
+	restore func()   // undoes what the configuration changed outside the handler (the compatibility flag)
 	store   *sxStore // nil: no EventStore configured
 	inflight map[string]int          // session name -> request handlers entered and not yet returned
 	infos    map[string]*sessionInfo // every sessionInfo ever seen in h.sessions, by raw id
@@ -261,15 +265,27 @@ func sxUserID(u string) (tok string, present bool) {
 	return "tok-" + u, true
 }
 
-func newSxWorld(stateless bool, timeoutMS int, withStore bool) *sxWorld {
-	w := &sxWorld{names: map[string]int{}, byOrd: map[int]string{}, slots: map[int]chan struct{}{}, stateless: stateless,
+const sxNoServerHeader = "X-Verif-No-Server"
+
+func newSxWorld(mode string, timeoutMS int, withStore bool, opts ...string) *sxWorld {
+	stateless := mode == "stateless" || mode == "legacy"
+	w := &sxWorld{names: map[string]int{}, byOrd: map[int]string{}, slots: map[int]chan struct{}{}, stateless: stateless, mode: mode,
 		inflight: map[string]int{}, infos: map[string]*sessionInfo{}}
+	if mode == "legacy" {
+		// MCPGODEBUG allowsessionsinstateless=1 (the package reads the parameter once, into this variable)
+		old := allowsessionsinstateless
+		allowsessionsinstateless = "1"
+		w.restore = func() { allowsessionsinstateless = old }
+	}
 	if withStore {
 		w.store = &sxStore{inner: NewMemoryEventStore(nil), fail: map[byte]bool{}}
 	}
 	w.server = NewServer(&Implementation{Name: "verif", Version: "1"}, nil)
 	orig := w.server.opts.GetSessionID
 	w.server.opts.GetSessionID = func() string {
+		if mode == "noids" {
+			return "" // ServerOptions.GetSessionID set to suppress session ids: nothing is minted
+		}
 		id := orig()
 		w.mu.Lock()
 		w.minted++
@@ -321,10 +337,21 @@ func newSxWorld(stateless bool, timeoutMS int, withStore bool) *sxWorld {
 		}
 	})
 	hopts := &StreamableHTTPOptions{Stateless: stateless, SessionTimeout: time.Duration(timeoutMS) * time.Millisecond}
+	hopts.CrossOriginProtection = &http.CrossOriginProtection{} // (requests without Origin / Sec-Fetch-Site pass)
 	if w.store != nil {
 		hopts.EventStore = w.store
 	}
-	w.h = NewStreamableHTTPHandler(func(*http.Request) *Server { return w.server }, hopts)
+	for _, o := range opts {
+		if o == "json" {
+			hopts.JSONResponse = true // answers as application/json instead of an SSE stream: the session layer must not care
+		}
+	}
+	w.h = NewStreamableHTTPHandler(func(r *http.Request) *Server {
+		if r.Header.Get(sxNoServerHeader) != "" {
+			return nil // `bad noserver`: no server for this request
+		}
+		return w.server
+	}, hopts)
 	verifier := func(ctx context.Context, token string, req *http.Request) (*auth.TokenInfo, error) {
 		if !strings.HasPrefix(token, "tok-") {
 			return nil, auth.ErrInvalidToken
@@ -372,6 +399,11 @@ func (w *sxWorld) name(id string) string {
 	defer w.mu.Unlock()
 	if k, ok := w.names[id]; ok {
 		return "s" + strconv.Itoa(k)
+	}
+	if n, ok := strings.CutPrefix(id, "never-minted-x"); ok {
+		if _, err := strconv.Atoi(n); err == nil {
+			return "x" + n // the never-minted id the op named
+		}
 	}
 	return "x" + hxs(id)
 }
@@ -628,7 +660,7 @@ func (w *sxWorld) apply(toks []string) (obs string) {
 			head = "pending -"
 		}
 		w.pend = append(w.pend, a)
-		if kind == "notif" && ref == "-" && !w.stateless {
+		if kind == "notif" && ref == "-" && !w.stateless && w.mode != "noids" {
 			// The session is closed as soon as this POST returns (failed-initialize cleanup) while the
 			// notification is still on its way to the handler: whether the handler runs is a race in the
 			// code under test. Not observed.  (The temporary session of a stateless endpoint handles what
@@ -724,6 +756,47 @@ func (w *sxWorld) apply(toks []string) (obs string) {
 			head = "pending -"
 		}
 		w.pend = append(w.pend, a)
+	case "bad":
+		// a request the handler must refuse before it reads the session id, whatever id and identity it carries
+		if len(toks) != 4 {
+			return "bad-op"
+		}
+		w.ngate++
+		method := http.MethodPost
+		if toks[1] == "getaccept" {
+			method = http.MethodGet
+		}
+		body := ""
+		if method == http.MethodPost {
+			body = w.body("ping", 0)
+		}
+		req, cancel := w.request(method, toks[2], toks[3], body)
+		switch toks[1] {
+		case "ctype":
+			req.Header.Set("Content-Type", "text/plain")
+		case "accept":
+			req.Header.Set("Accept", "application/json")
+		case "getaccept":
+			req.Header.Set("Accept", "application/json")
+		case "noserver":
+			req.Header.Set(sxNoServerHeader, "1")
+		case "origin":
+			req.Header.Set("Sec-Fetch-Site", "cross-site") // the handler has CrossOriginProtection
+		case "host":
+			// arrived on a loopback address, Host names something else (DNS rebinding)
+			req = req.WithContext(context.WithValue(req.Context(), http.LocalAddrContextKey, net.Addr(&net.TCPAddr{IP: net.IPv4(127, 0, 0, 1), Port: 8080})))
+		default:
+			return "bad-op"
+		}
+		a := w.start(fmt.Sprintf("g%d", w.ngate), req, cancel)
+		synctest.Wait()
+		if a.finished() {
+			a.seen = true
+			head = w.respOf(a)
+		} else {
+			head = "pending -"
+		}
+		w.pend = append(w.pend, a)
 	case "tick":
 		ms, _ := strconv.Atoi(toks[1])
 		time.Sleep(time.Duration(ms) * time.Millisecond)
@@ -782,6 +855,9 @@ func (w *sxWorld) apply(toks []string) (obs string) {
 // return (among them the final ServerSession.Close calls), sessions left in the handler's table / the server, idle
 // timers that are still armed although every session has been closed.
 func (w *sxWorld) finish() string {
+	if w.restore != nil {
+		defer w.restore()
+	}
 	w.mu.Lock()
 	for k, ch := range w.slots {
 		close(ch)
@@ -1064,6 +1140,15 @@ func (g *sxGen) next() (op string, tags []string) {
 			return fmt.Sprintf("postb %s %s", ref, user), []string{"postb", "id-" + cls}
 		}
 	}
+	if g.rng.Intn(100) < 5 {
+		// a request that is refused before the session layer, addressed like any other
+		ref, user, cls := g.target(true)
+		why := []string{"ctype", "accept", "getaccept", "noserver", "origin", "host"}[g.rng.Intn(6)]
+		if why == "noserver" && !g.stateless {
+			ref, cls = "-", "noid" // (with an id the session is looked up first: an ordinary POST)
+		}
+		return fmt.Sprintf("bad %s %s %s", why, ref, user), []string{"bad-" + why, "id-" + cls}
+	}
 	r := g.rng.Intn(100)
 	switch {
 	case r < 40:
@@ -1076,9 +1161,15 @@ func (g *sxGen) next() (op string, tags []string) {
 		return fmt.Sprintf("post %s %s %s", ref, user, kind), []string{"post-" + kind, "id-" + cls}
 	case r < 50:
 		ref, user, cls := g.target(false)
+		if g.rng.Intn(100) < 6 {
+			ref, cls = "-", "noid" // GET without a session id
+		}
 		return fmt.Sprintf("get %s %s", ref, user), []string{"get", "id-" + cls}
 	case r < 62:
 		ref, user, cls := g.target(false)
+		if g.rng.Intn(100) < 6 {
+			ref, cls = "-", "noid" // DELETE without a session id
+		}
 		return fmt.Sprintf("delete %s %s", ref, user), []string{"delete", "id-" + cls}
 	case r < 64:
 		ref, user, cls := g.target(true)
@@ -1393,12 +1484,12 @@ func sxRunCase(t *testing.T, out *verifOut, cs string, ops []string, gen *sxGen,
 					out.line(cs, "end", w.finish(), "end")
 				}
 				ms, _ := strconv.Atoi(toks[2])
-				w = newSxWorld(toks[1] == "stateless", ms, len(toks) > 3 && toks[3] == "es")
+				w = newSxWorld(toks[1], ms, len(toks) > 3 && toks[3] == "es", toks[3:]...)
 				out.line(cs, op, "ok", "reset")
 				return
 			}
 			if w == nil {
-				w = newSxWorld(false, 100, false)
+				w = newSxWorld("stateful", 100, false)
 				out.line(cs, "reset stateful 100", "ok", "reset")
 			}
 			obs := w.apply(toks)
@@ -1429,6 +1520,72 @@ func sxRunCase(t *testing.T, out *verifOut, cs string, ops []string, gen *sxGen,
 		if w != nil {
 			out.line(cs, "end", w.finish(), "end")
 		}
+	})
+}
+
+// sxEphOps generates a history for an endpoint that keeps no session: `legacy` (stateless under the compatibility
+// flag allowsessionsinstateless=1: ids are read, minted and echoed, DELETE is a no-op) or `noids` (stateful, GetSessionID
+// returns ""): every method with no id, ids the endpoint minted earlier (legacy), never-minted ids, by every identity;
+// POSTs whose handler stays blocked across later operations (several at once, also under one id), releases, ticks.
+func sxEphOps(rng *rand.Rand, mode string, n int) (ops []string, tags [][]string) {
+	minted, nslow, unk := 0, 0, 0
+	add := func(op string, t ...string) { ops = append(ops, op); tags = append(tags, t) }
+	ref := func() (string, string) {
+		switch r := rng.Intn(100); {
+		case r < 40:
+			return "-", "id-noid"
+		case r < 70 && mode == "legacy" && minted > 0:
+			return fmt.Sprintf("s%d", 1+rng.Intn(minted)), "id-minted"
+		}
+		if unk == 0 || rng.Intn(3) == 0 {
+			unk++
+		}
+		return fmt.Sprintf("x%d", 1+rng.Intn(unk)), "id-unknown"
+	}
+	for i := 0; i < n; i++ {
+		usr := sxUsers[rng.Intn(len(sxUsers))]
+		rf, cls := ref()
+		switch r := rng.Intn(100); {
+		case r < 45:
+			kind := []string{"init", "init", "ping", "notif", "slow", "slow", "badinit"}[rng.Intn(7)]
+			if kind == "slow" {
+				nslow++
+			}
+			if rf == "-" && mode == "legacy" {
+				minted++
+			}
+			add(fmt.Sprintf("post %s %s %s", rf, usr, kind), "post-"+kind, cls, "eph-"+mode)
+		case r < 57:
+			add(fmt.Sprintf("get %s %s", rf, usr), "get", cls, "eph-"+mode)
+		case r < 72:
+			add(fmt.Sprintf("delete %s %s", rf, usr), "delete", cls, "eph-"+mode)
+		case r < 77:
+			add(fmt.Sprintf("other %s %s", rf, usr), "other", cls, "eph-"+mode)
+		case r < 92:
+			k := 1
+			if nslow > 0 {
+				k = 1 + rng.Intn(nslow+1)
+			}
+			add(fmt.Sprintf("release %d", k), "release")
+		default:
+			add(fmt.Sprintf("tick %d", []int{1, 50, 100, 101}[rng.Intn(4)]), "tick-eph")
+		}
+	}
+	return ops, tags
+}
+
+// sxRunTagged runs a scripted history whose operations carry their own tags.
+func sxRunTagged(t *testing.T, out *verifOut, cs string, reset string, ops []string, tags [][]string) {
+	synctest.Test(t, func(t *testing.T) {
+		toks := strings.Fields(reset)
+		ms, _ := strconv.Atoi(toks[2])
+		w := newSxWorld(toks[1], ms, false, toks[3:]...)
+		out.line(cs, reset, "ok", "reset")
+		for i, op := range ops {
+			obs := w.apply(strings.Fields(op))
+			out.line(cs, op, obs, append(append([]string(nil), tags[i]...), sxResultTags(obs)...)...)
+		}
+		out.line(cs, "end", w.finish(), "end")
 	})
 }
 
@@ -1480,6 +1637,9 @@ func TestVerifSessions(t *testing.T) {
 			g.es = true
 			reset += " es"
 		}
+		if rng.Intn(100) < 25 {
+			reset += " json" // StreamableHTTPOptions.JSONResponse
+		}
 		ops := []string{reset}
 		if !g.stateless {
 			// most histories start with one to three sessions of different users
@@ -1500,6 +1660,13 @@ func TestVerifSessions(t *testing.T) {
 			tag0 = tag
 		}
 		sxRunCase(t, out, fmt.Sprintf("g%d", c), ops, g, 10+rng.Intn(28), tag0)
+	}
+	// the configurations that keep no session although ids travel (legacy stateless) or could be asked for (noids)
+	for c, ne := 0, verifN(240, 2400); c < ne; c++ {
+		rng := verifRng(int64(1_000_000 + c))
+		mode := []string{"legacy", "noids"}[c%2]
+		ops, tags := sxEphOps(rng, mode, 8+rng.Intn(20))
+		sxRunTagged(t, out, fmt.Sprintf("e%d", c), fmt.Sprintf("reset %s %d%s", mode, []int{0, 100}[rng.Intn(2)], []string{"", "", " nes json"}[rng.Intn(3)]), ops, tags)
 	}
 	// every short history on one session (exhaustive: depth 3 quick, depth 4 thorough)
 	depth := verifN(3, 4)
